@@ -5,101 +5,1195 @@ open Emitter
 /-- structural invariant of every reachable trie -/
 def Node.wf (n : Node) : Prop := n.distinct = true ∧ n.pruned = true ∧ n.nodupSubs = true
 
+/-! ### helper lemmas (Node-level statements with their Kids-level companions) -/
+
+theorem eraseDups_length_aux {α} [BEq α] [LawfulBEq α] : ∀ (n : Nat) (l : List α), l.length ≤ n →
+    l.eraseDups.length ≤ l.length ∧ (l.eraseDups.length = l.length ↔ l.Nodup)
+  | 0, l, h => by
+      have : l = [] := List.eq_nil_of_length_eq_zero (by omega)
+      subst this; simp
+  | n+1, [], _ => by simp
+  | n+1, a :: as, h => by
+      have hf : (as.filter fun b => !b == a).length ≤ as.length := List.length_filter_le _ _
+      have ih := eraseDups_length_aux n (as.filter fun b => !b == a) (by simp at h; omega)
+      rw [List.eraseDups_cons]
+      simp only [List.length_cons, List.nodup_cons]
+      constructor
+      · omega
+      · constructor
+        · intro heq
+          have h1 : (as.filter fun b => !b == a).length = as.length := by omega
+          have h2 : ∀ b ∈ as, (!b == a) = true := List.length_filter_eq_length_iff.mp h1
+          have h3 : as.filter (fun b => !b == a) = as := List.filter_eq_self.mpr h2
+          rw [h3] at ih heq
+          refine ⟨?_, ih.2.mp (by omega)⟩
+          intro hm
+          have := h2 a hm
+          simp at this
+        · rintro ⟨hna, hnd⟩
+          have h3 : as.filter (fun b => !b == a) = as := by
+            apply List.filter_eq_self.mpr
+            intro b hb
+            simp only [Bool.not_eq_eq_eq_not, Bool.not_true, beq_eq_false_iff_ne, ne_eq]
+            intro hba; subst hba; exact hna hb
+          rw [h3] at ih ⊢
+          have := ih.2.mpr hnd
+          omega
+
+theorem eraseDups_length_eq_iff {α} [BEq α] [LawfulBEq α] (l : List α) :
+    (l.eraseDups.length == l.length) = true ↔ l.Nodup := by
+  rw [beq_iff_eq]
+  exact (eraseDups_length_aux l.length l (Nat.le_refl _)).2
+
+
+theorem Kids.abs_path_ne_nil : (k : Kids) → (f : Path) → (s : Sub) → (f, s) ∈ k.abs → f ≠ []
+  | .nil, f, s, h => by simp [Kids.abs] at h
+  | .cons w n rest, f, s, h => by
+      simp only [Kids.abs, List.mem_append, List.mem_map] at h
+      rcases h with ⟨⟨p, s'⟩, _, he⟩ | h
+      · simp only [Prod.mk.injEq] at he; rw [← he.1]; simp
+      · exact Kids.abs_path_ne_nil rest f s h
+
+theorem Kids.nil_not_mem_abs (k : Kids) (s : Sub) : ([], s) ∉ k.abs :=
+  fun h => Kids.abs_path_ne_nil k [] s h rfl
+
+theorem Node.mem_abs_nil (subs : List Sub) (kids : Kids) (s : Sub) :
+    ([], s) ∈ (Node.mk subs kids).abs ↔ s ∈ subs := by
+  simp [Node.abs, Kids.nil_not_mem_abs]
+
+theorem Node.mem_abs_cons (subs : List Sub) (kids : Kids) (w : Word) (ws : Path) (s : Sub) :
+    (w :: ws, s) ∈ (Node.mk subs kids).abs ↔ (w :: ws, s) ∈ kids.abs := by
+  simp [Node.abs]
+
+theorem Kids.mem_abs_cons (w' : Word) (n : Node) (rest : Kids) (w : Word) (ws : Path) (s : Sub) :
+    (w :: ws, s) ∈ (Kids.cons w' n rest).abs ↔ (w' = w ∧ (ws, s) ∈ n.abs) ∨ (w :: ws, s) ∈ rest.abs := by
+  simp only [Kids.abs, List.mem_append, List.mem_map, Prod.mk.injEq, List.cons.injEq]
+  constructor
+  · rintro (⟨⟨p, t⟩, hp, ⟨rfl, rfl⟩, rfl⟩ | h)
+    · exact Or.inl ⟨rfl, hp⟩
+    · exact Or.inr h
+  · rintro (⟨rfl, h⟩ | h)
+    · exact Or.inl ⟨(ws, s), h, ⟨rfl, rfl⟩, rfl⟩
+    · exact Or.inr h
+
+theorem Kids.not_mem_abs_of_find_none : (k : Kids) → (w : Word) → (ws : Path) → (s : Sub) →
+    k.find? w = none → (w :: ws, s) ∉ k.abs
+  | .nil, w, ws, s, _ => by simp [Kids.abs]
+  | .cons w' n rest, w, ws, s, h => by
+      simp only [Kids.find?] at h
+      by_cases hw : w' = w
+      · simp [hw] at h
+      · have hb : (w' == w) = false := by simpa using hw
+        rw [hb] at h
+        simp only [Bool.false_eq_true, if_false] at h
+        rw [Kids.mem_abs_cons]
+        rintro (⟨h1, _⟩ | h2)
+        · exact hw h1
+        · exact Kids.not_mem_abs_of_find_none rest w ws s h h2
+
+theorem Node.fresh_abs : (p : Path) → (s : Sub) → (Node.fresh p s).abs = [(p, s)]
+  | [], s => by simp [Node.fresh, Node.abs, Kids.abs]
+  | w :: ws, s => by simp [Node.fresh, Node.abs, Kids.abs, Node.fresh_abs ws s]
+
+/-! insert -/
+mutual
+theorem Node.abs_insert' (n : Node) (p : Path) (s : Sub) (e : Path × Sub) :
+    e ∈ (n.insert p s).1.abs ↔ e = (p, s) ∨ e ∈ n.abs := by
+  match n, p with
+  | .mk subs kids, [] =>
+      simp only [Node.insert]
+      split
+      · rename_i hc
+        constructor
+        · exact Or.inr
+        · rintro (rfl | h)
+          · rw [Node.mem_abs_nil]; simpa using hc
+          · exact h
+      · simp only [Node.abs, List.map_cons, List.cons_append, List.mem_cons]
+  | .mk subs kids, w :: ws =>
+      simp only [Node.insert, Node.abs, List.mem_append]
+      rw [Kids.abs_insertAt' kids w ws s e]
+      constructor
+      · rintro (h | h | h)
+        · exact Or.inr (Or.inl h)
+        · exact Or.inl h
+        · exact Or.inr (Or.inr h)
+      · rintro (h | h | h)
+        · exact Or.inr (Or.inl h)
+        · exact Or.inl h
+        · exact Or.inr (Or.inr h)
+theorem Kids.abs_insertAt' (k : Kids) (w : Word) (ws : Path) (s : Sub) (e : Path × Sub) :
+    e ∈ (k.insertAt w ws s).1.abs ↔ e = (w :: ws, s) ∨ e ∈ k.abs := by
+  match k with
+  | .nil => simp [Kids.insertAt, Kids.abs, Node.fresh_abs]
+  | .cons w' n rest =>
+      simp only [Kids.insertAt]
+      split
+      · rename_i hw
+        have hw : w' = w := by simpa using hw
+        subst hw
+        simp only [Kids.abs, List.mem_append, List.mem_map]
+        constructor
+        · rintro (⟨ps, hps, rfl⟩ | h)
+          · rcases (Node.abs_insert' n ws s ps).mp hps with rfl | h
+            · exact Or.inl rfl
+            · exact Or.inr (Or.inl ⟨ps, h, rfl⟩)
+          · exact Or.inr (Or.inr h)
+        · rintro (rfl | ⟨ps, hps, rfl⟩ | h)
+          · exact Or.inl ⟨(ws, s), (Node.abs_insert' n ws s _).mpr (Or.inl rfl), rfl⟩
+          · exact Or.inl ⟨ps, (Node.abs_insert' n ws s _).mpr (Or.inr hps), rfl⟩
+          · exact Or.inr h
+      · simp only [Kids.abs, List.mem_append]
+        rw [Kids.abs_insertAt' rest w ws s e]
+        constructor
+        · rintro (h | h | h)
+          · exact Or.inr (Or.inl h)
+          · exact Or.inl h
+          · exact Or.inr (Or.inr h)
+        · rintro (h | h | h)
+          · exact Or.inr (Or.inl h)
+          · exact Or.inl h
+          · exact Or.inr (Or.inr h)
+end
+
+/-! #### insert -/
+theorem Kids.distinct_cons (w : Word) (n : Node) (rest : Kids) :
+    (Kids.cons w n rest).distinct = true ↔
+      rest.find? w = none ∧ n.distinct = true ∧ rest.distinct = true := by
+  simp [Kids.distinct, and_assoc]
+
+theorem Kids.find?_cons_self (w : Word) (n : Node) (rest : Kids) :
+    (Kids.cons w n rest).find? w = some n := by simp [Kids.find?]
+
+theorem Kids.find?_cons_ne (w' : Word) (n : Node) (rest : Kids) (w : Word) (h : w' ≠ w) :
+    (Kids.cons w' n rest).find? w = rest.find? w := by
+  have hb : (w' == w) = false := by simpa using h
+  simp [Kids.find?, hb]
+
+mutual
+theorem Node.insert_new_iff' (n : Node) (p : Path) (s : Sub) (h : n.distinct = true) :
+    (n.insert p s).2 = true ↔ (p, s) ∉ n.abs := by
+  match n, p with
+  | .mk subs kids, [] =>
+      rw [Node.mem_abs_nil]
+      simp only [Node.insert]
+      split
+      · rename_i hc; simpa using hc
+      · rename_i hc; simpa using hc
+  | .mk subs kids, w :: ws =>
+      rw [Node.mem_abs_cons]
+      simp only [Node.insert]
+      exact Kids.insertAt_new_iff' kids w ws s (by simpa [Node.distinct] using h)
+theorem Kids.insertAt_new_iff' (k : Kids) (w : Word) (ws : Path) (s : Sub) (h : k.distinct = true) :
+    (k.insertAt w ws s).2 = true ↔ (w :: ws, s) ∉ k.abs := by
+  match k with
+  | .nil => simp [Kids.insertAt, Kids.abs]
+  | .cons w' n rest =>
+      rw [Kids.distinct_cons] at h
+      obtain ⟨hf, hn, hr⟩ := h
+      rw [Kids.mem_abs_cons]
+      simp only [Kids.insertAt]
+      split
+      · rename_i hw
+        have hw : w' = w := by simpa using hw
+        subst hw
+        simp only
+        rw [Node.insert_new_iff' n ws s hn]
+        have := Kids.not_mem_abs_of_find_none rest w' ws s hf
+        simp [this]
+      · rename_i hw
+        have hw : ¬ w' = w := by simpa using hw
+        simp only
+        rw [Kids.insertAt_new_iff' rest w ws s hr]
+        simp [hw]
+end
+
+mutual
+theorem Node.abs_length_insert' (n : Node) (p : Path) (s : Sub) :
+    (n.insert p s).1.abs.length = n.abs.length + (if (n.insert p s).2 then 1 else 0) := by
+  match n, p with
+  | .mk subs kids, [] =>
+      simp only [Node.insert]
+      split
+      · simp
+      · simp [Node.abs]
+  | .mk subs kids, w :: ws =>
+      simp only [Node.insert, Node.abs, List.length_append]
+      rw [Kids.abs_length_insertAt' kids w ws s]
+      by_cases hb : (kids.insertAt w ws s).2 = true <;> simp [hb] <;> omega
+theorem Kids.abs_length_insertAt' (k : Kids) (w : Word) (ws : Path) (s : Sub) :
+    (k.insertAt w ws s).1.abs.length = k.abs.length + (if (k.insertAt w ws s).2 then 1 else 0) := by
+  match k with
+  | .nil => simp [Kids.insertAt, Kids.abs, Node.fresh_abs]
+  | .cons w' n rest =>
+      simp only [Kids.insertAt]
+      split
+      · simp only [Kids.abs, List.length_append, List.length_map]
+        rw [Node.abs_length_insert' n ws s]
+        omega
+      · simp only [Kids.abs, List.length_append, List.length_map]
+        rw [Kids.abs_length_insertAt' rest w ws s]
+        omega
+end
+
+/-! wf of insert -/
+theorem Node.fresh_distinct : (p : Path) → (s : Sub) → (Node.fresh p s).distinct = true
+  | [], s => by simp [Node.fresh, Node.distinct, Kids.distinct]
+  | w :: ws, s => by simp [Node.fresh, Node.distinct, Kids.distinct, Kids.find?, Node.fresh_distinct ws s]
+
+theorem Node.fresh_not_empty : (p : Path) → (s : Sub) → (Node.fresh p s).isEmpty = false
+  | [], s => by simp [Node.fresh, Node.isEmpty]
+  | w :: ws, s => by simp [Node.fresh, Node.isEmpty, Kids.isNil]
+
+theorem Node.fresh_pruned : (p : Path) → (s : Sub) → (Node.fresh p s).pruned = true
+  | [], s => by simp [Node.fresh, Node.pruned, Kids.pruned]
+  | w :: ws, s => by
+      simp [Node.fresh, Node.pruned, Kids.pruned, Node.fresh_pruned ws s, Node.fresh_not_empty ws s]
+
+theorem Node.fresh_nodupSubs : (p : Path) → (s : Sub) → (Node.fresh p s).nodupSubs = true
+  | [], s => by simp [Node.fresh, Node.nodupSubs, Kids.nodupSubs, List.eraseDups_cons]
+  | w :: ws, s => by
+      simp [Node.fresh, Node.nodupSubs, Kids.nodupSubs, Node.fresh_nodupSubs ws s]
+
+theorem Kids.find?_insertAt_ne : (k : Kids) → (w : Word) → (ws : Path) → (s : Sub) → (x : Word) →
+    w ≠ x → (k.insertAt w ws s).1.find? x = k.find? x
+  | .nil, w, ws, s, x, h => by
+      simp only [Kids.insertAt]; rw [Kids.find?_cons_ne _ _ _ _ h]
+  | .cons w' n rest, w, ws, s, x, h => by
+      simp only [Kids.insertAt]
+      split
+      · rename_i hw
+        have hw : w' = w := by simpa using hw
+        subst hw
+        rw [Kids.find?_cons_ne _ _ _ _ h, Kids.find?_cons_ne _ _ _ _ h]
+      · by_cases hx : w' = x
+        · subst hx; rw [Kids.find?_cons_self, Kids.find?_cons_self]
+        · rw [Kids.find?_cons_ne _ _ _ _ hx, Kids.find?_cons_ne _ _ _ _ hx]
+          exact Kids.find?_insertAt_ne rest w ws s x h
+
+mutual
+theorem Node.distinct_insert (n : Node) (p : Path) (s : Sub) (h : n.distinct = true) :
+    (n.insert p s).1.distinct = true := by
+  match n, p with
+  | .mk subs kids, [] =>
+      simp only [Node.insert]
+      split <;> simpa [Node.distinct] using h
+  | .mk subs kids, w :: ws =>
+      simp only [Node.insert, Node.distinct]
+      exact Kids.distinct_insertAt kids w ws s (by simpa [Node.distinct] using h)
+theorem Kids.distinct_insertAt (k : Kids) (w : Word) (ws : Path) (s : Sub) (h : k.distinct = true) :
+    (k.insertAt w ws s).1.distinct = true := by
+  match k with
+  | .nil =>
+      simp only [Kids.insertAt]
+      rw [Kids.distinct_cons]
+      exact ⟨rfl, Node.fresh_distinct ws s, rfl⟩
+  | .cons w' n rest =>
+      rw [Kids.distinct_cons] at h
+      obtain ⟨hf, hn, hr⟩ := h
+      simp only [Kids.insertAt]
+      split
+      · rw [Kids.distinct_cons]
+        exact ⟨hf, Node.distinct_insert n ws s hn, hr⟩
+      · rename_i hw
+        have hw : ¬ w' = w := by simpa using hw
+        rw [Kids.distinct_cons]
+        refine ⟨?_, hn, Kids.distinct_insertAt rest w ws s hr⟩
+        rw [Kids.find?_insertAt_ne rest w ws s w' (fun h => hw h.symm)]
+        exact hf
+end
+
+theorem Node.insert_not_empty (n : Node) (p : Path) (s : Sub) : (n.insert p s).1.isEmpty = false := by
+  match n, p with
+  | .mk subs kids, [] =>
+      simp only [Node.insert]
+      split
+      · rename_i hc
+        cases subs with
+        | nil => simp at hc
+        | cons a t => simp [Node.isEmpty]
+      · simp [Node.isEmpty]
+  | .mk subs kids, w :: ws =>
+      cases kids with
+      | nil => simp [Node.insert, Kids.insertAt, Node.isEmpty, Kids.isNil]
+      | cons w' n' rest =>
+          simp only [Node.insert, Kids.insertAt]
+          split <;> simp [Node.isEmpty, Kids.isNil]
+
+mutual
+theorem Node.pruned_insert (n : Node) (p : Path) (s : Sub) (h : n.pruned = true) :
+    (n.insert p s).1.pruned = true := by
+  match n, p with
+  | .mk subs kids, [] =>
+      simp only [Node.insert]
+      split <;> simpa [Node.pruned] using h
+  | .mk subs kids, w :: ws =>
+      simp only [Node.insert, Node.pruned]
+      exact Kids.pruned_insertAt kids w ws s (by simpa [Node.pruned] using h)
+theorem Kids.pruned_insertAt (k : Kids) (w : Word) (ws : Path) (s : Sub) (h : k.pruned = true) :
+    (k.insertAt w ws s).1.pruned = true := by
+  match k with
+  | .nil =>
+      simp [Kids.insertAt, Kids.pruned, Node.fresh_pruned, Node.fresh_not_empty]
+  | .cons w' n rest =>
+      simp only [Kids.pruned, Bool.and_eq_true, Bool.not_eq_eq_eq_not, Bool.not_true] at h
+      obtain ⟨⟨he, hn⟩, hr⟩ := h
+      simp only [Kids.insertAt]
+      split
+      · simp [Kids.pruned, Node.insert_not_empty, Node.pruned_insert n ws s hn, hr]
+      · simp [Kids.pruned, he, hn, Kids.pruned_insertAt rest w ws s hr]
+end
+
+theorem Node.nodupSubs_mk (subs : List Sub) (kids : Kids) :
+    (Node.mk subs kids).nodupSubs = true ↔ subs.Nodup ∧ kids.nodupSubs = true := by
+  simp only [Node.nodupSubs, Bool.and_eq_true]
+  rw [eraseDups_length_eq_iff]
+
+mutual
+theorem Node.nodupSubs_insert (n : Node) (p : Path) (s : Sub) (h : n.nodupSubs = true) :
+    (n.insert p s).1.nodupSubs = true := by
+  match n, p with
+  | .mk subs kids, [] =>
+      simp only [Node.insert]
+      split
+      · exact h
+      · rename_i hc
+        rw [Node.nodupSubs_mk] at h ⊢
+        refine ⟨List.nodup_cons.mpr ⟨by simpa using hc, h.1⟩, h.2⟩
+  | .mk subs kids, w :: ws =>
+      simp only [Node.insert]
+      rw [Node.nodupSubs_mk] at h ⊢
+      exact ⟨h.1, Kids.nodupSubs_insertAt kids w ws s h.2⟩
+theorem Kids.nodupSubs_insertAt (k : Kids) (w : Word) (ws : Path) (s : Sub) (h : k.nodupSubs = true) :
+    (k.insertAt w ws s).1.nodupSubs = true := by
+  match k with
+  | .nil =>
+      simp [Kids.insertAt, Kids.nodupSubs, Node.fresh_nodupSubs]
+  | .cons w' n rest =>
+      simp only [Kids.nodupSubs, Bool.and_eq_true] at h
+      simp only [Kids.insertAt]
+      split
+      · simp [Kids.nodupSubs, Node.nodupSubs_insert n ws s h.1, h.2]
+      · simp [Kids.nodupSubs, h.1, Kids.nodupSubs_insertAt rest w ws s h.2]
+end
+
+/-! #### remove -/
+theorem Node.abs_of_isEmpty (n : Node) (h : n.isEmpty = true) : n.abs = [] := by
+  match n with
+  | .mk subs kids =>
+      simp only [Node.isEmpty, Bool.and_eq_true, List.isEmpty_iff] at h
+      obtain ⟨rfl, hk⟩ := h
+      cases kids with
+      | nil => simp [Node.abs, Kids.abs]
+      | cons _ _ _ => simp [Kids.isNil] at hk
+
+mutual
+theorem Node.abs_remove' (n : Node) (p : Path) (s : Sub) (hd : n.distinct = true)
+    (hn : n.nodupSubs = true) (f : Path) (t : Sub) :
+    (f, t) ∈ (n.remove p s).1.abs ↔ (f, t) ∈ n.abs ∧ (f, t) ≠ (p, s) := by
+  match n, p, f with
+  | .mk subs kids, [], [] =>
+      rw [Node.nodupSubs_mk] at hn
+      simp only [Node.remove]
+      split
+      · rw [Node.mem_abs_nil, Node.mem_abs_nil, hn.1.mem_erase_iff]
+        simp [and_comm]
+      · rename_i hc
+        rw [Node.mem_abs_nil]
+        constructor
+        · intro ht
+          refine ⟨ht, ?_⟩
+          intro he
+          simp only [Prod.mk.injEq, true_and] at he
+          subst he
+          exact hc (by simpa using ht)
+        · exact fun h => h.1
+  | .mk subs kids, [], x :: xs =>
+      simp only [Node.remove]
+      split <;> simp [Node.mem_abs_cons]
+  | .mk subs kids, w :: ws, [] =>
+      simp only [Node.remove]
+      simp [Node.mem_abs_nil]
+  | .mk subs kids, w :: ws, x :: xs =>
+      rw [Node.nodupSubs_mk] at hn
+      simp only [Node.remove]
+      rw [Node.mem_abs_cons, Node.mem_abs_cons]
+      exact Kids.abs_removeAt' kids w ws s (by simpa [Node.distinct] using hd) hn.2 (x :: xs) t
+theorem Kids.abs_removeAt' (k : Kids) (w : Word) (ws : Path) (s : Sub) (hd : k.distinct = true)
+    (hn : k.nodupSubs = true) (f : Path) (t : Sub) :
+    (f, t) ∈ (k.removeAt w ws s).1.abs ↔ (f, t) ∈ k.abs ∧ (f, t) ≠ (w :: ws, s) := by
+  match k, f with
+  | k, [] => simp [Kids.nil_not_mem_abs]
+  | .nil, x :: xs => simp [Kids.removeAt, Kids.abs]
+  | .cons w' n rest, x :: xs =>
+      rw [Kids.distinct_cons] at hd
+      obtain ⟨hf, hdn, hdr⟩ := hd
+      simp only [Kids.nodupSubs, Bool.and_eq_true] at hn
+      obtain ⟨hnn, hnr⟩ := hn
+      simp only [Kids.removeAt]
+      split
+      · rename_i hw
+        have hw : w' = w := by simpa using hw
+        subst hw
+        have ih := Node.abs_remove' n ws s hdn hnn xs t
+        have hnr' : ∀ ys u, (w' :: ys, u) ∉ rest.abs :=
+          fun ys u => Kids.not_mem_abs_of_find_none rest w' ys u hf
+        split
+        · rename_i he
+          rw [Node.abs_of_isEmpty _ he] at ih
+          simp only [List.not_mem_nil, false_iff, not_and, Classical.not_not] at ih
+          rw [Kids.mem_abs_cons]
+          constructor
+          · intro h
+            refine ⟨Or.inr h, ?_⟩
+            intro heq
+            simp only [Prod.mk.injEq, List.cons.injEq] at heq
+            obtain ⟨⟨rfl, rfl⟩, rfl⟩ := heq
+            exact hnr' _ _ h
+          · rintro ⟨⟨rfl, h⟩ | h, hne⟩
+            · exfalso
+              have := ih h
+              simp only [Prod.mk.injEq] at this
+              obtain ⟨rfl, rfl⟩ := this
+              exact hne rfl
+            · exact h
+        · rw [Kids.mem_abs_cons, Kids.mem_abs_cons, ih]
+          constructor
+          · rintro (⟨rfl, h, hne⟩ | h)
+            · refine ⟨Or.inl ⟨rfl, h⟩, ?_⟩
+              intro heq
+              simp only [Prod.mk.injEq, List.cons.injEq, true_and] at heq
+              exact hne (by simp [heq.1, heq.2])
+            · refine ⟨Or.inr h, ?_⟩
+              intro heq
+              simp only [Prod.mk.injEq, List.cons.injEq] at heq
+              obtain ⟨⟨rfl, rfl⟩, rfl⟩ := heq
+              exact hnr' _ _ h
+          · rintro ⟨⟨rfl, h⟩ | h, hne⟩
+            · refine Or.inl ⟨rfl, h, ?_⟩
+              intro heq
+              simp only [Prod.mk.injEq] at heq
+              exact hne (by simp [heq.1, heq.2])
+            · exact Or.inr h
+      · rename_i hw
+        have hw : ¬ w' = w := by simpa using hw
+        simp only
+        rw [Kids.mem_abs_cons, Kids.mem_abs_cons, Kids.abs_removeAt' rest w ws s hdr hnr (x :: xs) t]
+        constructor
+        · rintro (⟨rfl, h⟩ | ⟨h, hne⟩)
+          · refine ⟨Or.inl ⟨rfl, h⟩, ?_⟩
+            intro heq
+            simp only [Prod.mk.injEq, List.cons.injEq] at heq
+            exact hw heq.1.1
+          · exact ⟨Or.inr h, hne⟩
+        · rintro ⟨⟨rfl, h⟩ | h, hne⟩
+          · exact Or.inl ⟨rfl, h⟩
+          · exact Or.inr ⟨h, hne⟩
+end
+
+mutual
+theorem Node.remove_hit_iff' (n : Node) (p : Path) (s : Sub) (h : n.distinct = true) :
+    (n.remove p s).2 = true ↔ (p, s) ∈ n.abs := by
+  match n, p with
+  | .mk subs kids, [] =>
+      rw [Node.mem_abs_nil]
+      simp only [Node.remove]
+      split
+      · rename_i hc; simpa using hc
+      · rename_i hc; simpa using hc
+  | .mk subs kids, w :: ws =>
+      rw [Node.mem_abs_cons]
+      simp only [Node.remove]
+      exact Kids.removeAt_hit_iff' kids w ws s (by simpa [Node.distinct] using h)
+theorem Kids.removeAt_hit_iff' (k : Kids) (w : Word) (ws : Path) (s : Sub) (h : k.distinct = true) :
+    (k.removeAt w ws s).2 = true ↔ (w :: ws, s) ∈ k.abs := by
+  match k with
+  | .nil => simp [Kids.removeAt, Kids.abs]
+  | .cons w' n rest =>
+      rw [Kids.distinct_cons] at h
+      obtain ⟨hf, hn, hr⟩ := h
+      rw [Kids.mem_abs_cons]
+      simp only [Kids.removeAt]
+      split
+      · rename_i hw
+        have hw : w' = w := by simpa using hw
+        subst hw
+        have := Kids.not_mem_abs_of_find_none rest w' ws s hf
+        split
+        · simp only
+          rw [Node.remove_hit_iff' n ws s hn]
+          simp [this]
+        · simp only
+          rw [Node.remove_hit_iff' n ws s hn]
+          simp [this]
+      · rename_i hw
+        have hw : ¬ w' = w := by simpa using hw
+        simp only
+        rw [Kids.removeAt_hit_iff' rest w ws s hr]
+        simp [hw]
+end
+
+mutual
+theorem Node.abs_length_remove' (n : Node) (p : Path) (s : Sub) :
+    (n.remove p s).1.abs.length + (if (n.remove p s).2 then 1 else 0) = n.abs.length := by
+  match n, p with
+  | .mk subs kids, [] =>
+      simp only [Node.remove]
+      split
+      · rename_i hc
+        have hc : s ∈ subs := by simpa using hc
+        have hpos : 0 < subs.length := List.length_pos_of_mem hc
+        simp [Node.abs, List.length_erase_of_mem hc]
+        omega
+      · simp
+  | .mk subs kids, w :: ws =>
+      simp only [Node.remove, Node.abs, List.length_append]
+      have := Kids.abs_length_removeAt' kids w ws s
+      by_cases hb : (kids.removeAt w ws s).2 = true <;> simp [hb] at this ⊢ <;> omega
+theorem Kids.abs_length_removeAt' (k : Kids) (w : Word) (ws : Path) (s : Sub) :
+    (k.removeAt w ws s).1.abs.length + (if (k.removeAt w ws s).2 then 1 else 0) = k.abs.length := by
+  match k with
+  | .nil => simp [Kids.removeAt, Kids.abs]
+  | .cons w' n rest =>
+      simp only [Kids.removeAt]
+      split
+      · have ih := Node.abs_length_remove' n ws s
+        split
+        · rename_i he
+          rw [Node.abs_of_isEmpty _ he] at ih
+          simp only [Kids.abs, List.length_append, List.length_map]
+          by_cases hb : (n.remove ws s).2 = true <;>
+            simp only [hb, ↓reduceIte, List.length_nil] at ih ⊢ <;> omega
+        · simp only [Kids.abs, List.length_append, List.length_map]
+          by_cases hb : (n.remove ws s).2 = true <;> simp only [hb, ↓reduceIte] at ih ⊢ <;> omega
+      · simp only [Kids.abs, List.length_append, List.length_map]
+        have ih := Kids.abs_length_removeAt' rest w ws s
+        by_cases hb : (rest.removeAt w ws s).2 = true <;> simp [hb] at ih ⊢ <;> omega
+end
+
+/-! #### well-formedness is preserved by remove -/
+theorem Kids.find?_removeAt_none : (k : Kids) → (w : Word) → (ws : Path) → (s : Sub) → (x : Word) →
+    k.find? x = none → (k.removeAt w ws s).1.find? x = none
+  | .nil, w, ws, s, x, h => by simp [Kids.removeAt, Kids.find?]
+  | .cons w' n rest, w, ws, s, x, h => by
+      have hx : ¬ w' = x := by
+        intro hx; subst hx; rw [Kids.find?_cons_self] at h; cases h
+      rw [Kids.find?_cons_ne _ _ _ _ hx] at h
+      simp only [Kids.removeAt]
+      split
+      · split
+        · exact h
+        · rw [Kids.find?_cons_ne _ _ _ _ hx]; exact h
+      · rw [Kids.find?_cons_ne _ _ _ _ hx]
+        exact Kids.find?_removeAt_none rest w ws s x h
+
+mutual
+theorem Node.distinct_remove (n : Node) (p : Path) (s : Sub) (h : n.distinct = true) :
+    (n.remove p s).1.distinct = true := by
+  match n, p with
+  | .mk subs kids, [] =>
+      simp only [Node.remove]
+      split <;> simpa [Node.distinct] using h
+  | .mk subs kids, w :: ws =>
+      simp only [Node.remove, Node.distinct]
+      exact Kids.distinct_removeAt kids w ws s (by simpa [Node.distinct] using h)
+theorem Kids.distinct_removeAt (k : Kids) (w : Word) (ws : Path) (s : Sub) (h : k.distinct = true) :
+    (k.removeAt w ws s).1.distinct = true := by
+  match k with
+  | .nil => simp [Kids.removeAt, Kids.distinct]
+  | .cons w' n rest =>
+      rw [Kids.distinct_cons] at h
+      obtain ⟨hf, hn, hr⟩ := h
+      simp only [Kids.removeAt]
+      split
+      · split
+        · exact hr
+        · rw [Kids.distinct_cons]
+          exact ⟨hf, Node.distinct_remove n ws s hn, hr⟩
+      · rw [Kids.distinct_cons]
+        exact ⟨Kids.find?_removeAt_none rest w ws s w' hf, hn, Kids.distinct_removeAt rest w ws s hr⟩
+end
+
+mutual
+theorem Node.pruned_remove (n : Node) (p : Path) (s : Sub) (h : n.pruned = true) :
+    (n.remove p s).1.pruned = true := by
+  match n, p with
+  | .mk subs kids, [] =>
+      simp only [Node.remove]
+      split <;> simpa [Node.pruned] using h
+  | .mk subs kids, w :: ws =>
+      simp only [Node.remove, Node.pruned]
+      exact Kids.pruned_removeAt kids w ws s (by simpa [Node.pruned] using h)
+theorem Kids.pruned_removeAt (k : Kids) (w : Word) (ws : Path) (s : Sub) (h : k.pruned = true) :
+    (k.removeAt w ws s).1.pruned = true := by
+  match k with
+  | .nil => simp [Kids.removeAt, Kids.pruned]
+  | .cons w' n rest =>
+      simp only [Kids.pruned, Bool.and_eq_true, Bool.not_eq_eq_eq_not, Bool.not_true] at h
+      obtain ⟨⟨he, hn⟩, hr⟩ := h
+      simp only [Kids.removeAt]
+      split
+      · split
+        · exact hr
+        · rename_i hne
+          simp [Kids.pruned, hne, Node.pruned_remove n ws s hn, hr]
+      · simp [Kids.pruned, he, hn, Kids.pruned_removeAt rest w ws s hr]
+end
+
+mutual
+theorem Node.nodupSubs_remove (n : Node) (p : Path) (s : Sub) (h : n.nodupSubs = true) :
+    (n.remove p s).1.nodupSubs = true := by
+  match n, p with
+  | .mk subs kids, [] =>
+      simp only [Node.remove]
+      split
+      · rw [Node.nodupSubs_mk] at h ⊢
+        exact ⟨h.1.erase s, h.2⟩
+      · exact h
+  | .mk subs kids, w :: ws =>
+      simp only [Node.remove]
+      rw [Node.nodupSubs_mk] at h ⊢
+      exact ⟨h.1, Kids.nodupSubs_removeAt kids w ws s h.2⟩
+theorem Kids.nodupSubs_removeAt (k : Kids) (w : Word) (ws : Path) (s : Sub) (h : k.nodupSubs = true) :
+    (k.removeAt w ws s).1.nodupSubs = true := by
+  match k with
+  | .nil => simp [Kids.removeAt, Kids.nodupSubs]
+  | .cons w' n rest =>
+      simp only [Kids.nodupSubs, Bool.and_eq_true] at h
+      simp only [Kids.removeAt]
+      split
+      · split
+        · exact h.2
+        · simp [Kids.nodupSubs, Node.nodupSubs_remove n ws s h.1, h.2]
+      · simp [Kids.nodupSubs, h.1, Kids.nodupSubs_removeAt rest w ws s h.2]
+end
+
+/-! abs nodup -/
+mutual
+theorem Node.abs_nodup' (n : Node) (hd : n.distinct = true) (hn : n.nodupSubs = true) :
+    n.abs.Nodup := by
+  match n with
+  | .mk subs kids =>
+      rw [Node.nodupSubs_mk] at hn
+      simp only [Node.abs]
+      rw [List.nodup_append]
+      refine ⟨?_, Kids.abs_nodup' kids (by simpa [Node.distinct] using hd) hn.2, ?_⟩
+      · refine List.Pairwise.map _ ?_ hn.1
+        intro a b hab heq
+        simp only [Prod.mk.injEq, true_and] at heq
+        exact hab heq
+      · intro a ha b hb heq
+        subst heq
+        simp only [List.mem_map] at ha
+        obtain ⟨t, _, rfl⟩ := ha
+        exact Kids.nil_not_mem_abs kids t hb
+theorem Kids.abs_nodup' (k : Kids) (hd : k.distinct = true) (hn : k.nodupSubs = true) :
+    k.abs.Nodup := by
+  match k with
+  | .nil => simp [Kids.abs]
+  | .cons w n rest =>
+      rw [Kids.distinct_cons] at hd
+      obtain ⟨hf, hdn, hdr⟩ := hd
+      simp only [Kids.nodupSubs, Bool.and_eq_true] at hn
+      simp only [Kids.abs]
+      rw [List.nodup_append]
+      refine ⟨?_, Kids.abs_nodup' rest hdr hn.2, ?_⟩
+      · refine List.Pairwise.map _ ?_ (Node.abs_nodup' n hdn hn.1)
+        intro a b hab heq
+        simp only [Prod.mk.injEq, List.cons.injEq, true_and] at heq
+        exact hab (Prod.ext heq.1 heq.2)
+      · intro a ha b hb heq
+        subst heq
+        simp only [List.mem_map] at ha
+        obtain ⟨⟨f, t⟩, _, rfl⟩ := ha
+        exact Kids.not_mem_abs_of_find_none rest w f t hf hb
+end
+
+/-! #### lookups -/
+theorem Node.mem_subs_iff (n : Node) (s : Sub) : s ∈ n.subs ↔ ([], s) ∈ n.abs := by
+  match n with
+  | .mk subs kids => rw [Node.mem_abs_nil]; rfl
+
+mutual
+theorem Node.lookupE_spec' (n : Node) (q : Path) (s : Sub) :
+    s ∈ n.lookupE q ↔ ∃ f, (f, s) ∈ n.abs ∧ matchesE f q = true := by
+  match n, q with
+  | .mk subs kids, [] =>
+      simp only [Node.lookupE]
+      constructor
+      · intro h; exact ⟨[], (Node.mem_abs_nil _ _ _).mpr h, rfl⟩
+      · rintro ⟨f, h, hm⟩
+        cases f with
+        | nil => exact (Node.mem_abs_nil _ _ _).mp h
+        | cons a t => simp [matchesE] at hm
+  | .mk subs kids, w :: ws =>
+      simp only [Node.lookupE, List.mem_append]
+      rw [Kids.lookupE_spec' kids w ws s]
+      constructor
+      · rintro (h | ⟨f, h, hm⟩)
+        · exact ⟨[], (Node.mem_abs_nil _ _ _).mpr h, rfl⟩
+        · cases f with
+          | nil => exact absurd h (Kids.nil_not_mem_abs _ _)
+          | cons a t => exact ⟨a :: t, (Node.mem_abs_cons _ _ _ _ _).mpr h, hm⟩
+      · rintro ⟨f, h, hm⟩
+        cases f with
+        | nil => exact Or.inl ((Node.mem_abs_nil _ _ _).mp h)
+        | cons a t => exact Or.inr ⟨a :: t, (Node.mem_abs_cons _ _ _ _ _).mp h, hm⟩
+theorem Kids.lookupE_spec' (k : Kids) (w : Word) (ws : Path) (s : Sub) :
+    s ∈ k.lookupE w ws ↔ ∃ f, (f, s) ∈ k.abs ∧ matchesE f (w :: ws) = true := by
+  match k with
+  | .nil => simp [Kids.lookupE, Kids.abs]
+  | .cons w' n rest =>
+      simp only [Kids.lookupE, List.mem_append]
+      rw [Kids.lookupE_spec' rest w ws s]
+      constructor
+      · rintro (h | ⟨f, hf, hm⟩)
+        · split at h
+          · rename_i hc
+            rw [Node.lookupE_spec' n ws s] at h
+            obtain ⟨f, hf, hm⟩ := h
+            refine ⟨w' :: f, (Kids.mem_abs_cons _ _ _ _ _ _).mpr (Or.inl ⟨rfl, hf⟩), ?_⟩
+            simp only [matchesE, Bool.and_eq_true]
+            exact ⟨hc, hm⟩
+          · simp at h
+        · cases f with
+          | nil => exact absurd hf (Kids.nil_not_mem_abs _ _)
+          | cons a t => exact ⟨a :: t, (Kids.mem_abs_cons _ _ _ _ _ _).mpr (Or.inr hf), hm⟩
+      · rintro ⟨f, h, hm⟩
+        cases f with
+        | nil => exact absurd h (Kids.nil_not_mem_abs _ _)
+        | cons a t =>
+            rcases (Kids.mem_abs_cons _ _ _ _ _ _).mp h with ⟨rfl, h1⟩ | h1
+            · simp only [matchesE, Bool.and_eq_true] at hm
+              left
+              rw [if_pos hm.1, Node.lookupE_spec' n ws s]
+              exact ⟨t, h1, hm.2⟩
+            · exact Or.inr ⟨a :: t, h1, hm⟩
+end
+
+mutual
+theorem Node.lookupM_spec' (n : Node) (q : Path) (s : Sub) :
+    s ∈ n.lookupM q ↔ ∃ f, (f, s) ∈ n.abs ∧ matchesM f q = true := by
+  match n, q with
+  | .mk subs kids, [] =>
+      simp only [Node.lookupM]
+      constructor
+      · intro h; exact ⟨[], (Node.mem_abs_nil _ _ _).mpr h, rfl⟩
+      · rintro ⟨f, h, hm⟩
+        cases f with
+        | nil => exact (Node.mem_abs_nil _ _ _).mp h
+        | cons a t => simp [matchesM] at hm
+  | .mk subs kids, w :: ws =>
+      simp only [Node.lookupM]
+      rw [Kids.lookupM_spec' kids w ws s]
+      constructor
+      · rintro ⟨f, h, hm⟩
+        cases f with
+        | nil => exact absurd h (Kids.nil_not_mem_abs _ _)
+        | cons a t => exact ⟨a :: t, (Node.mem_abs_cons _ _ _ _ _).mpr h, hm⟩
+      · rintro ⟨f, h, hm⟩
+        cases f with
+        | nil => simp [matchesM] at hm
+        | cons a t => exact ⟨a :: t, (Node.mem_abs_cons _ _ _ _ _).mp h, hm⟩
+theorem Kids.lookupM_spec' (k : Kids) (w : Word) (ws : Path) (s : Sub) :
+    s ∈ k.lookupM w ws ↔ ∃ f, (f, s) ∈ k.abs ∧ matchesM f (w :: ws) = true := by
+  match k with
+  | .nil => simp [Kids.lookupM, Kids.abs]
+  | .cons w' n rest =>
+      simp only [Kids.lookupM, List.mem_append]
+      rw [Kids.lookupM_spec' rest w ws s]
+      constructor
+      · rintro ((h | h) | ⟨f, hf, hm⟩)
+        · split at h
+          · rename_i hc
+            rw [Node.lookupM_spec' n ws s] at h
+            obtain ⟨f, hf, hm⟩ := h
+            refine ⟨w' :: f, (Kids.mem_abs_cons _ _ _ _ _ _).mpr (Or.inl ⟨rfl, hf⟩), ?_⟩
+            simp only [matchesM, Bool.or_eq_true, Bool.and_eq_true]
+            exact Or.inl ⟨by simpa using hc, hm⟩
+          · simp at h
+        · split at h
+          · rename_i hc
+            rw [Node.mem_subs_iff] at h
+            refine ⟨[w'], (Kids.mem_abs_cons _ _ _ _ _ _).mpr (Or.inl ⟨rfl, h⟩), ?_⟩
+            simp only [matchesM, Bool.or_eq_true, Bool.and_eq_true]
+            exact Or.inr ⟨hc, rfl⟩
+          · simp at h
+        · cases f with
+          | nil => exact absurd hf (Kids.nil_not_mem_abs _ _)
+          | cons a t => exact ⟨a :: t, (Kids.mem_abs_cons _ _ _ _ _ _).mpr (Or.inr hf), hm⟩
+      · rintro ⟨f, h, hm⟩
+        cases f with
+        | nil => exact absurd h (Kids.nil_not_mem_abs _ _)
+        | cons a t =>
+            rcases (Kids.mem_abs_cons _ _ _ _ _ _).mp h with ⟨rfl, h1⟩ | h1
+            · simp only [matchesM, Bool.or_eq_true, Bool.and_eq_true] at hm
+              rcases hm with ⟨hc, hm⟩ | ⟨hc, ht⟩
+              · left; left
+                rw [if_pos (by simpa using hc), Node.lookupM_spec' n ws s]
+                exact ⟨t, h1, hm⟩
+              · left; right
+                have : t = [] := by simpa using ht
+                subst this
+                rw [if_pos hc, Node.mem_subs_iff]
+                exact h1
+            · exact Or.inr ⟨a :: t, h1, hm⟩
+end
+
+/-! share groups -/
+theorem Kids.find?_some_abs : (k : Kids) → (w : Word) → (n : Node) → k.distinct = true →
+    k.find? w = some n → ∀ (p : Path) (s : Sub), (w :: p, s) ∈ k.abs ↔ (p, s) ∈ n.abs
+  | .nil, w, n, _, h => by simp [Kids.find?] at h
+  | .cons w' n' rest, w, n, hd, h => by
+      intro p s
+      rw [Kids.distinct_cons] at hd
+      obtain ⟨hf, _, hdr⟩ := hd
+      rw [Kids.mem_abs_cons]
+      by_cases hw : w' = w
+      · subst hw
+        rw [Kids.find?_cons_self] at h
+        cases h
+        have := Kids.not_mem_abs_of_find_none rest w' p s hf
+        simp [this]
+      · rw [Kids.find?_cons_ne _ _ _ _ hw] at h
+        rw [← Kids.find?_some_abs rest w n hdr h p s]
+        simp [hw]
+
+theorem Kids.find?_some_distinct : (k : Kids) → (w : Word) → (n : Node) → k.distinct = true →
+    k.find? w = some n → n.distinct = true
+  | .nil, w, n, _, h => by simp [Kids.find?] at h
+  | .cons w' n' rest, w, n, hd, h => by
+      rw [Kids.distinct_cons] at hd
+      obtain ⟨_, hdn, hdr⟩ := hd
+      by_cases hw : w' = w
+      · subst hw
+        rw [Kids.find?_cons_self] at h
+        cases h; exact hdn
+      · rw [Kids.find?_cons_ne _ _ _ _ hw] at h
+        exact Kids.find?_some_distinct rest w n hdr h
+
+theorem Kids.find?_isSome_of_mem_abs (k : Kids) (w : Word) (p : Path) (s : Sub)
+    (h : (w :: p, s) ∈ k.abs) : ∃ n, k.find? w = some n := by
+  cases hf : k.find? w with
+  | none => exact absurd h (Kids.not_mem_abs_of_find_none k w p s hf)
+  | some n => exact ⟨n, rfl⟩
+
+theorem Node.kids_distinct (n : Node) (h : n.distinct = true) : n.kids.distinct = true := by
+  match n with
+  | .mk _ _ => simpa [Node.distinct, Node.kids] using h
+
+theorem Node.mem_abs_cons' (n : Node) (w : Word) (ws : Path) (s : Sub) :
+    (w :: ws, s) ∈ n.abs ↔ (w :: ws, s) ∈ n.kids.abs := by
+  match n with
+  | .mk _ _ => rw [Node.mem_abs_cons]; rfl
+
+/-- descending one level in a node whose children are distinct -/
+theorem Node.child_abs (n c : Node) (w : Word) (hd : n.distinct = true) (hf : n.kids.find? w = some c)
+    (p : Path) (s : Sub) : (w :: p, s) ∈ n.abs ↔ (p, s) ∈ c.abs := by
+  rw [Node.mem_abs_cons']
+  exact Kids.find?_some_abs n.kids w c (Node.kids_distinct n hd) hf p s
+
+theorem Node.child_distinct (n c : Node) (w : Word) (hd : n.distinct = true)
+    (hf : n.kids.find? w = some c) : c.distinct = true :=
+  Kids.find?_some_distinct n.kids w c (Node.kids_distinct n hd) hf
+
+theorem Node.child_exists (n : Node) (w : Word) (p : Path) (s : Sub) (h : (w :: p, s) ∈ n.abs) :
+    ∃ c, n.kids.find? w = some c :=
+  Kids.find?_isSome_of_mem_abs n.kids w p s ((Node.mem_abs_cons' n w p s).mp h)
+
+theorem Kids.groups_find : (k : Kids) → (m : Mode) → (q : Path) → (g : Word) → (cands : List Sub) →
+    k.distinct = true → (g, cands) ∈ k.groups m q → ∃ n, k.find? g = some n ∧ cands = n.lookup m q
+  | .nil, m, q, g, cands, _, h => by simp [Kids.groups] at h
+  | .cons w n rest, m, q, g, cands, hd, h => by
+      rw [Kids.distinct_cons] at hd
+      obtain ⟨hf, _, hdr⟩ := hd
+      simp only [Kids.groups, List.mem_cons, Prod.mk.injEq] at h
+      rcases h with ⟨rfl, rfl⟩ | h
+      · exact ⟨n, Kids.find?_cons_self _ _ _, rfl⟩
+      · obtain ⟨n', hn', hc⟩ := Kids.groups_find rest m q g cands hdr h
+        refine ⟨n', ?_, hc⟩
+        have hw : ¬ w = g := by
+          intro hw; subst hw; rw [hf] at hn'; cases hn'
+        rw [Kids.find?_cons_ne _ _ _ _ hw]; exact hn'
+
+theorem Kids.groups_of_find : (k : Kids) → (m : Mode) → (q : Path) → (g : Word) → (n : Node) →
+    k.find? g = some n → (g, n.lookup m q) ∈ k.groups m q
+  | .nil, m, q, g, n, h => by simp [Kids.find?] at h
+  | .cons w n' rest, m, q, g, n, h => by
+      simp only [Kids.groups, List.mem_cons, Prod.mk.injEq]
+      by_cases hw : w = g
+      · subst hw
+        rw [Kids.find?_cons_self] at h
+        cases h; exact Or.inl ⟨rfl, rfl⟩
+      · rw [Kids.find?_cons_ne _ _ _ _ hw] at h
+        exact Or.inr (Kids.groups_of_find rest m q g n h)
+
+theorem Kids.groups_keys_not_mem : (k : Kids) → (m : Mode) → (q : Path) → (g : Word) →
+    k.find? g = none → g ∉ (k.groups m q).map Prod.fst
+  | .nil, m, q, g, _ => by simp [Kids.groups]
+  | .cons w n rest, m, q, g, h => by
+      have hw : ¬ w = g := by
+        intro hw; subst hw; rw [Kids.find?_cons_self] at h; cases h
+      rw [Kids.find?_cons_ne _ _ _ _ hw] at h
+      simp only [Kids.groups, List.map_cons, List.mem_cons, not_or]
+      exact ⟨fun h' => hw h'.symm, Kids.groups_keys_not_mem rest m q g h⟩
+
+theorem Kids.groups_keys_nodup : (k : Kids) → (m : Mode) → (q : Path) → k.distinct = true →
+    ((k.groups m q).map Prod.fst).Nodup
+  | .nil, m, q, _ => by simp [Kids.groups]
+  | .cons w n rest, m, q, hd => by
+      rw [Kids.distinct_cons] at hd
+      obtain ⟨hf, _, hdr⟩ := hd
+      simp only [Kids.groups, List.map_cons, List.nodup_cons]
+      exact ⟨Kids.groups_keys_not_mem rest m q w hf, Kids.groups_keys_nodup rest m q hdr⟩
+
+/-! ### the statements -/
+
 theorem wf_empty : Node.empty.wf := by
-  sorry
+  refine ⟨by decide, by decide, by decide⟩
 
 /-! ### subscribe / unsubscribe refine insertion / removal on the set of pairs -/
 
 theorem abs_insert (n : Node) (p : Path) (s : Sub) (h : n.wf) (e : Path × Sub) :
     e ∈ (n.insert p s).1.abs ↔ e = (p, s) ∨ e ∈ n.abs := by
-  sorry
+  exact Node.abs_insert' n p s e
 
 theorem insert_new_iff (n : Node) (p : Path) (s : Sub) (h : n.wf) :
     (n.insert p s).2 = true ↔ (p, s) ∉ n.abs := by
-  sorry
+  exact Node.insert_new_iff' n p s h.1
 
 theorem abs_length_insert (n : Node) (p : Path) (s : Sub) (h : n.wf) :
     (n.insert p s).1.abs.length = n.abs.length + (if (n.insert p s).2 then 1 else 0) := by
-  sorry
+  exact Node.abs_length_insert' n p s
 
 theorem wf_insert (n : Node) (p : Path) (s : Sub) (h : n.wf) : (n.insert p s).1.wf := by
-  sorry
+  exact ⟨Node.distinct_insert n p s h.1, Node.pruned_insert n p s h.2.1,
+    Node.nodupSubs_insert n p s h.2.2⟩
 
 theorem abs_remove (n : Node) (p : Path) (s : Sub) (h : n.wf) (e : Path × Sub) :
     e ∈ (n.remove p s).1.abs ↔ e ∈ n.abs ∧ e ≠ (p, s) := by
-  sorry
+  obtain ⟨f, t⟩ := e
+  exact Node.abs_remove' n p s h.1 h.2.2 f t
 
 theorem remove_hit_iff (n : Node) (p : Path) (s : Sub) (h : n.wf) :
     (n.remove p s).2 = true ↔ (p, s) ∈ n.abs := by
-  sorry
+  exact Node.remove_hit_iff' n p s h.1
 
 theorem abs_length_remove (n : Node) (p : Path) (s : Sub) (h : n.wf) :
     (n.remove p s).1.abs.length + (if (n.remove p s).2 then 1 else 0) = n.abs.length := by
-  sorry
+  exact Node.abs_length_remove' n p s
 
 theorem wf_remove (n : Node) (p : Path) (s : Sub) (h : n.wf) : (n.remove p s).1.wf := by
-  sorry
+  exact ⟨Node.distinct_remove n p s h.1, Node.pruned_remove n p s h.2.1,
+    Node.nodupSubs_remove n p s h.2.2⟩
 
 /-- the pairs of a well-formed trie are pairwise distinct -/
 theorem abs_nodup (n : Node) (h : n.wf) : n.abs.Nodup := by
-  sorry
+  exact Node.abs_nodup' n h.1 h.2.2
 
 /-! ### lookups return exactly the subscribers holding a matching filter -/
 
 theorem lookupE_spec (n : Node) (q : Path) (s : Sub) :
     s ∈ n.lookupE q ↔ ∃ f, (f, s) ∈ n.abs ∧ matchesE f q = true := by
-  sorry
+  exact Node.lookupE_spec' n q s
 
 theorem lookupM_spec (n : Node) (q : Path) (s : Sub) :
     s ∈ n.lookupM q ↔ ∃ f, (f, s) ∈ n.abs ∧ matchesM f q = true := by
-  sorry
+  exact Node.lookupM_spec' n q s
 
 theorem lookup_spec (m : Mode) (n : Node) (q : Path) (s : Sub) :
     s ∈ n.lookup m q ↔ ∃ f, (f, s) ∈ n.abs ∧ matchesMode m f q = true := by
-  sorry
+  cases m
+  · exact lookupE_spec n q s
+  · exact lookupM_spec n q s
 
 /-- the candidates of a share group are the subscribers holding a matching filter inside
 `contract/$share/group/…` -/
 theorem shareGroups_spec (m : Mode) (root : Node) (c : Word) (q : Path) (h : root.wf)
     (g : Word) (cands : List Sub) (hg : (g, cands) ∈ shareGroups m root (c :: q)) (s : Sub) :
     s ∈ cands ↔ ∃ f, (c :: shareWord :: g :: f, s) ∈ root.abs ∧ matchesMode m f q = true := by
-  sorry
+  simp only [shareGroups] at hg
+  cases hc : root.kids.find? c with
+  | none => rw [hc] at hg; simp at hg
+  | some cn =>
+      rw [hc] at hg
+      simp only at hg
+      have hdc := Node.child_distinct root cn c h.1 hc
+      cases hs : cn.kids.find? shareWord with
+      | none => rw [hs] at hg; simp at hg
+      | some sn =>
+          rw [hs] at hg
+          simp only at hg
+          have hds := Node.child_distinct cn sn shareWord hdc hs
+          obtain ⟨gn, hgn, rfl⟩ := Kids.groups_find sn.kids m q g cands (Node.kids_distinct sn hds) hg
+          rw [lookup_spec]
+          have key : ∀ f, (c :: shareWord :: g :: f, s) ∈ root.abs ↔ (f, s) ∈ gn.abs := by
+            intro f
+            rw [Node.child_abs root cn c h.1 hc, Node.child_abs cn sn shareWord hdc hs,
+              Node.child_abs sn gn g hds hgn]
+          constructor
+          · rintro ⟨f, hf, hm⟩; exact ⟨f, (key f).mpr hf, hm⟩
+          · rintro ⟨f, hf, hm⟩; exact ⟨f, (key f).mp hf, hm⟩
 
 /-- every group below `contract/$share` that holds any pair appears exactly once -/
 theorem shareGroups_complete (m : Mode) (root : Node) (c : Word) (q : Path) (h : root.wf)
     (g : Word) (f : Path) (s : Sub) (hp : (c :: shareWord :: g :: f, s) ∈ root.abs) :
     ∃ cands, (g, cands) ∈ shareGroups m root (c :: q) := by
-  sorry
+  obtain ⟨cn, hc⟩ := Node.child_exists root c _ s hp
+  have hdc := Node.child_distinct root cn c h.1 hc
+  rw [Node.child_abs root cn c h.1 hc] at hp
+  obtain ⟨sn, hs⟩ := Node.child_exists cn shareWord _ s hp
+  have hds := Node.child_distinct cn sn shareWord hdc hs
+  rw [Node.child_abs cn sn shareWord hdc hs] at hp
+  obtain ⟨gn, hgn⟩ := Node.child_exists sn g _ s hp
+  refine ⟨gn.lookup m q, ?_⟩
+  simp only [shareGroups, hc, hs]
+  exact Kids.groups_of_find sn.kids m q g gn hgn
 
 theorem shareGroups_nodup (m : Mode) (root : Node) (ssid : Path) (h : root.wf) :
     ((shareGroups m root ssid).map Prod.fst).Nodup := by
-  sorry
+  cases ssid with
+  | nil => simp [shareGroups]
+  | cons c q =>
+      simp only [shareGroups]
+      cases hc : root.kids.find? c with
+      | none => simp
+      | some cn =>
+          simp only
+          have hdc := Node.child_distinct root cn c h.1 hc
+          cases hs : cn.kids.find? shareWord with
+          | none => simp
+          | some sn =>
+              simp only
+              have hds := Node.child_distinct cn sn shareWord hdc hs
+              exact Kids.groups_keys_nodup sn.kids m q (Node.kids_distinct sn hds)
 
 /-- `Lookup`: the direct receivers plus, for every share group with a matching member, the
 one member chosen by `pick` — for every choice function -/
 theorem lookupAll_spec (m : Mode) (pick : List Sub → Sub) (root : Node) (ssid : Path) (s : Sub) :
     s ∈ lookupAll m pick root ssid ↔
       s ∈ root.lookup m ssid ∨ ∃ g ∈ shareGroups m root ssid, g.2 ≠ [] ∧ s = pick g.2 := by
-  sorry
+  simp only [lookupAll, List.mem_append, List.mem_map, List.mem_filter]
+  constructor
+  · rintro (h | ⟨g, ⟨hg, hne⟩, rfl⟩)
+    · exact Or.inl h
+    · exact Or.inr ⟨g, hg, by simpa using hne, rfl⟩
+  · rintro (h | ⟨g, hg, hne, rfl⟩)
+    · exact Or.inl h
+    · exact Or.inr ⟨g, ⟨hg, by simpa using hne⟩, rfl⟩
 
 /-! ### the matching relations, in index form -/
 
 theorem matchesE_iff (f q : Path) :
     matchesE f q = true ↔ f.length ≤ q.length ∧ ∀ i (h : i < f.length) (h' : i < q.length),
       f[i] = q[i] ∨ f[i] = wildcard := by
-  sorry
+  induction f generalizing q with
+  | nil => simp [matchesE]
+  | cons a fs ih =>
+      cases q with
+      | nil => simp [matchesE]
+      | cons c cs =>
+          simp only [matchesE, Bool.and_eq_true, Bool.or_eq_true, beq_iff_eq, ih cs,
+            List.length_cons, Nat.add_le_add_iff_right]
+          constructor
+          · rintro ⟨h0, hl, hi⟩
+            refine ⟨hl, ?_⟩
+            intro i h h'
+            cases i with
+            | zero => simpa using h0
+            | succ j =>
+                simp only [List.getElem_cons_succ]
+                exact hi j (by omega) (by omega)
+          · rintro ⟨hl, hi⟩
+            refine ⟨by simpa using hi 0 (by omega) (by omega), hl, ?_⟩
+            intro i h h'
+            have := hi (i + 1) (by omega) (by omega)
+            simpa only [List.getElem_cons_succ] using this
 
 theorem matchesM_iff (f q : Path) :
     matchesM f q = true ↔
       (f.length = q.length ∧ ∀ i (h : i < f.length) (h' : i < q.length), f[i] = q[i] ∨ f[i] = wildcard) ∨
       (∃ g, f = g ++ [multiWildcard] ∧ g.length < q.length ∧
         ∀ i (h : i < g.length) (h' : i < q.length), g[i] = q[i] ∨ g[i] = wildcard) := by
-  sorry
+  induction f generalizing q with
+  | nil =>
+      cases q with
+      | nil => simp [matchesM]
+      | cons c cs => simp [matchesM]
+  | cons a fs ih =>
+      cases q with
+      | nil => simp [matchesM]
+      | cons c cs =>
+          simp only [matchesM, Bool.or_eq_true, Bool.and_eq_true, beq_iff_eq, List.isEmpty_iff, ih cs]
+          constructor
+          · rintro (⟨h0, ⟨hl, hi⟩ | ⟨g, rfl, hl, hi⟩⟩ | ⟨rfl, rfl⟩)
+            · left
+              refine ⟨by simp [hl], ?_⟩
+              intro i h h'
+              cases i with
+              | zero => simpa using h0
+              | succ j =>
+                  simp only [List.getElem_cons_succ]
+                  exact hi j (by simp at h; omega) (by simp at h'; omega)
+            · right
+              refine ⟨a :: g, rfl, by simp; omega, ?_⟩
+              intro i h h'
+              cases i with
+              | zero => simpa using h0
+              | succ j =>
+                  simp only [List.getElem_cons_succ]
+                  exact hi j (by simp at h; omega) (by simp at h'; omega)
+            · right
+              exact ⟨[], rfl, by simp, by intro i h; simp at h⟩
+          · rintro (⟨hl, hi⟩ | ⟨g, hg, hl, hi⟩)
+            · left
+              have hl' : fs.length = cs.length := by simpa using hl
+              have h0 := hi 0 (Nat.zero_lt_succ _) (Nat.zero_lt_succ _)
+              simp only [List.getElem_cons_zero] at h0
+              refine ⟨h0, Or.inl ⟨hl', ?_⟩⟩
+              intro i h h'
+              have := hi (i + 1) (by simp; omega) (by simp; omega)
+              simpa only [List.getElem_cons_succ] using this
+            · cases g with
+              | nil =>
+                  simp only [List.nil_append, List.cons.injEq] at hg
+                  exact Or.inr ⟨hg.1, hg.2⟩
+              | cons b g' =>
+                  simp only [List.cons_append, List.cons.injEq] at hg
+                  obtain ⟨rfl, rfl⟩ := hg
+                  left
+                  have h0 := hi 0 (Nat.zero_lt_succ _) (Nat.zero_lt_succ _)
+                  simp only [List.getElem_cons_zero] at h0
+                  refine ⟨h0, Or.inr ⟨g', rfl, by simp at hl; omega, ?_⟩⟩
+                  intro i h h'
+                  have := hi (i + 1) (by simp; omega) (by simp; omega)
+                  simpa only [List.getElem_cons_succ] using this
 
 /-! ### pruning: no subscription left ⇒ the index is the bare root again -/
 
+mutual
+theorem Node.eq_empty_of_abs_nil (n : Node) (hp : n.pruned = true) (he : n.abs = []) :
+    n = Node.mk [] .nil := by
+  match n with
+  | .mk subs kids =>
+      simp only [Node.abs, List.append_eq_nil_iff, List.map_eq_nil_iff] at he
+      obtain ⟨rfl, hk⟩ := he
+      rw [Kids.eq_nil_of_abs_nil kids (by simpa [Node.pruned] using hp) hk]
+theorem Kids.eq_nil_of_abs_nil (k : Kids) (hp : k.pruned = true) (he : k.abs = []) :
+    k = .nil := by
+  match k with
+  | .nil => rfl
+  | .cons w n rest =>
+      exfalso
+      simp only [Kids.abs, List.append_eq_nil_iff, List.map_eq_nil_iff] at he
+      simp only [Kids.pruned, Bool.and_eq_true, Bool.not_eq_eq_eq_not, Bool.not_true] at hp
+      obtain ⟨⟨hne, hpn⟩, _⟩ := hp
+      rw [Node.eq_empty_of_abs_nil n hpn he.1] at hne
+      simp [Node.isEmpty, Kids.isNil] at hne
+end
+
 theorem empty_of_abs_nil (n : Node) (h : n.wf) (he : n.abs = []) : n = Node.empty := by
-  sorry
+  exact Node.eq_empty_of_abs_nil n h.2.1 he
 
 /-! ### histories -/
 
@@ -120,21 +1214,137 @@ def specStep (S : List (Path × Sub)) : Op → List (Path × Sub)
 def run (ops : List Op) : T := ops.foldl T.step {}
 def specRun (ops : List Op) : List (Path × Sub) := ops.foldl specStep []
 
+theorem filter_ne_eq_self {α} [BEq α] [LawfulBEq α] (a : α) (l : List α) (h : a ∉ l) :
+    l.filter (fun e => e != a) = l := by
+  apply List.filter_eq_self.mpr
+  intro b hb
+  simp only [bne_iff_ne, ne_eq]
+  intro hba; subst hba; exact h hb
+
+theorem filter_ne_length {α} [BEq α] [LawfulBEq α] (a : α) : ∀ (l : List α), l.Nodup → a ∈ l →
+    (l.filter (fun e => e != a)).length + 1 = l.length
+  | [], _, h => by simp at h
+  | b :: t, hn, h => by
+      rw [List.nodup_cons] at hn
+      by_cases hba : b = a
+      · subst hba
+        simp [filter_ne_eq_self b t hn.1]
+      · have hat : a ∈ t := by
+          rcases List.mem_cons.mp h with h | h
+          · exact absurd h.symm hba
+          · exact h
+        have hb : (b != a) = true := by simpa using hba
+        simp only [List.filter_cons, hb, if_true, List.length_cons]
+        rw [filter_ne_length a t hn.2 hat]
+
+/-- the simulation invariant between the trie and the specification state -/
+structure Inv (t : T) (S : List (Path × Sub)) : Prop where
+  wf : t.root.wf
+  mem : ∀ e, e ∈ t.root.abs ↔ e ∈ S
+  count : t.count = t.root.abs.length
+  len : S.length = t.root.abs.length
+  nodup : S.Nodup
+
+theorem Inv.init : Inv {} [] := by
+  refine ⟨wf_empty, ?_, ?_, ?_, List.nodup_nil⟩
+  · intro e; simp [Node.empty, Node.abs, Kids.abs]
+  · simp [Node.empty, Node.abs, Kids.abs]
+  · simp [Node.empty, Node.abs, Kids.abs]
+
+theorem Inv.step {t : T} {S : List (Path × Sub)} (h : Inv t S) (op : Op) :
+    Inv (t.step op) (specStep S op) := by
+  obtain ⟨hwf, hmem, hcount, hlen, hnd⟩ := h
+  cases op with
+  | sub p s =>
+      simp only [T.step, T.subscribe, specStep]
+      have hnew := insert_new_iff t.root p s hwf
+      have hl := abs_length_insert t.root p s hwf
+      by_cases hin : (p, s) ∈ S
+      · have hf : (t.root.insert p s).2 = false := by
+          cases hb : (t.root.insert p s).2 with
+          | false => rfl
+          | true => exact absurd ((hmem _).mpr hin) (hnew.mp hb)
+        rw [if_pos hin]
+        simp only [hf, Bool.false_eq_true, if_false, Nat.add_zero] at hl ⊢
+        refine ⟨wf_insert t.root p s hwf, ?_, by rw [hl]; exact hcount, by rw [hl]; exact hlen, hnd⟩
+        intro e
+        rw [abs_insert t.root p s hwf e, hmem e]
+        constructor
+        · rintro (rfl | h)
+          · exact hin
+          · exact h
+        · exact Or.inr
+      · have hf : (t.root.insert p s).2 = true := hnew.mpr (fun h => hin ((hmem _).mp h))
+        rw [if_neg hin]
+        simp only [hf, if_true] at hl ⊢
+        refine ⟨wf_insert t.root p s hwf, ?_, by rw [hl, hcount], by rw [hl, List.length_cons, hlen],
+          List.nodup_cons.mpr ⟨hin, hnd⟩⟩
+        intro e
+        rw [abs_insert t.root p s hwf e, hmem e, List.mem_cons]
+  | unsub p s =>
+      simp only [T.step, T.unsubscribe, specStep]
+      have hhit := remove_hit_iff t.root p s hwf
+      have hl := abs_length_remove t.root p s hwf
+      have hmem' : ∀ e, e ∈ (t.root.remove p s).1.abs ↔ e ∈ S.filter (fun e => e != (p, s)) := by
+        intro e
+        rw [abs_remove t.root p s hwf e, hmem e, List.mem_filter]
+        simp
+      have hnd' : (S.filter (fun e => e != (p, s))).Nodup := hnd.sublist List.filter_sublist
+      by_cases hin : (p, s) ∈ S
+      · have hf : (t.root.remove p s).2 = true := hhit.mpr ((hmem _).mpr hin)
+        have hfl := filter_ne_length (p, s) S hnd hin
+        simp only [hf, if_true] at hl ⊢
+        refine ⟨wf_remove t.root p s hwf, hmem', ?_, ?_, hnd'⟩
+        · dsimp only; omega
+        · dsimp only; omega
+      · have hf : (t.root.remove p s).2 = false := by
+          cases hb : (t.root.remove p s).2 with
+          | false => rfl
+          | true => exact absurd ((hmem _).mp (hhit.mp hb)) hin
+        simp only [hf, Bool.false_eq_true, if_false, Nat.add_zero] at hl ⊢
+        refine ⟨wf_remove t.root p s hwf, hmem', by rw [hl]; exact hcount, ?_, hnd'⟩
+        rw [filter_ne_eq_self (p, s) S hin, hl]; exact hlen
+
+theorem Inv.fold : ∀ (ops : List Op) (t : T) (S : List (Path × Sub)), Inv t S →
+    Inv (ops.foldl T.step t) (ops.foldl specStep S)
+  | [], _, _, h => h
+  | op :: ops, t, S, h => by
+      simp only [List.foldl_cons]
+      exact Inv.fold ops _ _ (h.step op)
+
+theorem Inv.run (ops : List Op) : Inv (run ops) (specRun ops) :=
+  Inv.fold ops _ _ Inv.init
+
 /-- for every finite history from the empty trie: the trie is well-formed, holds exactly the
 specification's pairs, and its counter is their number -/
 theorem history_refines (ops : List Op) :
     (run ops).root.wf ∧ (∀ e, e ∈ (run ops).root.abs ↔ e ∈ specRun ops) ∧
     (run ops).count = (specRun ops).length ∧ (specRun ops).Nodup := by
-  sorry
+  have h := Inv.run ops
+  exact ⟨h.wf, h.mem, by rw [h.count, h.len], h.nodup⟩
 
 /-- a lookup after any history returns exactly the subscribers that hold a matching filter -/
 theorem history_lookup (ops : List Op) (m : Mode) (q : Path) (s : Sub) :
     s ∈ (run ops).root.lookup m q ↔ ∃ f, (f, s) ∈ specRun ops ∧ matchesMode m f q = true := by
-  sorry
+  have h := Inv.run ops
+  rw [lookup_spec]
+  constructor
+  · rintro ⟨f, hf, hm⟩; exact ⟨f, (h.mem _).mp hf, hm⟩
+  · rintro ⟨f, hf, hm⟩; exact ⟨f, (h.mem _).mpr hf, hm⟩
 
 /-- when every subscription has been removed the index is empty again (one node, count 0) -/
 theorem history_empty (ops : List Op) (h : specRun ops = []) :
     (run ops).root = Node.empty ∧ (run ops).count = 0 ∧ (run ops).root.size = 1 := by
-  sorry
+  have hi := Inv.run ops
+  have habs : (run ops).root.abs = [] := by
+    apply List.eq_nil_iff_forall_not_mem.mpr
+    intro e he
+    have := (hi.mem e).mp he
+    rw [h] at this
+    simp at this
+  have hroot := empty_of_abs_nil _ hi.wf habs
+  refine ⟨hroot, by rw [hi.count, habs]; rfl, ?_⟩
+  rw [hroot]
+  decide
 
 end Emitter.Trie
